@@ -273,13 +273,14 @@ def reuse_pack(rng, fmt):
     order = sorted(range(k), key=lambda i: len(blobs[i]), reverse=(style != "reverse"))
     if style == "mixed":
         rng.shuffle(order)
-    entries, full = [], set()
+    entries, full, used_as_base = [], set(), set()
     for pos, i in enumerate(order):
         if pos == 0 or (style != "chain" and rng.random() < 0.3):
             entries.append(("full", "blob", blobs[i]))
             full.add(i)
         else:
             b = order[pos - 1] if style == "chain" else rng.choice([j for j in order[:pos]])
+            used_as_base.add(b)
             src, tgt = blobs[b], blobs[i]
             p = 0
             while p < min(len(src), len(tgt)) and src[p] == tgt[p]:
@@ -296,7 +297,7 @@ def reuse_pack(rng, fmt):
                 rest = rest[127:]
             delta = D.leb(len(src)) + D.leb(len(tgt)) + ops
             entries.append(("ref", G.obj_oid("blob", src, fmt), delta))
-    return [("blob", b) for b in blobs], G.make_pack_entries(entries, fmt), style
+    return [("blob", b) for b in blobs], G.make_pack_entries(entries, fmt), style, sorted(used_as_base)
 
 
 def prefix_delta(src, tgt):
@@ -365,18 +366,19 @@ class Select(Suite):
                 c["window"] = 2
                 order = list(range(len(objs)))
             elif b == "reuse":
-                objs, pack, style = reuse_pack(rng, fmt)
+                objs, pack, style, bases = reuse_pack(rng, fmt)
                 c["packhex"] = pack.hex()
                 c["ids"] = [G.obj_oid(t, x, fmt).hex() for t, x in objs]
                 c["objs"] = objs_json(objs)       # for the oracle only (the harness reads the repository)
                 c["window"] = rng.choice([0, 1, 1, 10, 10, 50])
                 order = list(range(len(objs)))
-                if len(order) > 2 and rng.random() < 0.45:
-                    # request only a part of the pack: stored deltas whose base is NOT among the objects to pack
-                    # (fixAndBreakChainsOne -> undeltify)
-                    for _ in range(rng.choice([1, 1, 2])):
-                        if len(order) > 2:
-                            order.pop(rng.randrange(len(order)))
+                if len(order) > 2 and bases and rng.random() < 0.45:
+                    # request only a part of the pack: a stored delta whose base is NOT among the objects to pack
+                    # (fixAndBreakChainsOne -> undeltify), plus possibly another missing object
+                    order.remove(rng.choice(bases))
+                    if len(order) > 2 and rng.random() < 0.4:
+                        order.pop(rng.randrange(len(order)))
+                    c["window"] = rng.choice([1, 1, 10, 10, 50])
                     style += "-partial"
                 b = "reuse-" + style
             elif b == "dup":
